@@ -749,10 +749,12 @@ fn run_case(case: &J) -> J {
     let barrier = Arc::new(Barrier::new(n));
     let caught = Arc::new(Mutex::new(Vec::new()));
     let tids = Arc::new(Mutex::new(vec![String::new(); n]));
+    // Full / Compact print `{:0>2?}` (the padding reaches the number inside: ThreadId(02)), Pretty prints `{:?}`
+    let tids_plain = Arc::new(Mutex::new(vec![String::new(); n]));
     let mut handles = Vec::new();
     for (t, prog) in threads.into_iter().enumerate() {
-        let (dispatch, callsites, direct, barrier, caught, tids, faults) =
-            (dispatch.clone(), callsites.clone(), direct.clone(), barrier.clone(), caught.clone(), tids.clone(), faults.clone());
+        let (dispatch, callsites, direct, barrier, caught, tids, faults, tids_plain) =
+            (dispatch.clone(), callsites.clone(), direct.clone(), barrier.clone(), caught.clone(), tids.clone(), faults.clone(), tids_plain.clone());
         // fixed-width names: FmtThreadName pads to the longest name seen by the process
         let h = std::thread::Builder::new()
             .name(format!("wk{:02}", t))
@@ -761,6 +763,7 @@ fn run_case(case: &J) -> J {
                 MKCTR.with(|c| c.set(0));
                 PLAN.with(|p| *p.borrow_mut() = faults.get(t).cloned().unwrap_or_default());
                 tids.lock().unwrap()[t] = format!("{:0>2?}", std::thread::current().id());
+                tids_plain.lock().unwrap()[t] = format!("{:?}", std::thread::current().id());
                 let prog = prog.as_array().unwrap().clone();
                 barrier.wait();
                 if global {
@@ -782,8 +785,9 @@ fn run_case(case: &J) -> J {
     }
     let entries = log.0.lock().unwrap_or_else(|p| p.into_inner()).clone();
     let tids = tids.lock().unwrap().clone();
+    let tids_plain = tids_plain.lock().unwrap().clone();
     let caught = caught.lock().unwrap().clone();
-    json!({"id": case["id"], "tids": tids, "log": entries, "caught": caught, "thread_panics": thread_panics})
+    json!({"id": case["id"], "tids": tids, "tids_plain": tids_plain, "log": entries, "caught": caught, "thread_panics": thread_panics})
 }
 
 fn main() {
